@@ -34,6 +34,9 @@ def oracle(b: bytes, rendered: str):
     """C04 as a predicate on what the implementation reported for readout bytes b; returns why-not or None"""
     if rendered.startswith("EXC"):
         return None  # constructor rejected the bytes: not a readout object
+    if rendered.startswith("UNSTABLE(") and rendered.endswith(")"):
+        a, c = rendered[len("UNSTABLE("):-1].split("|", 1)   # the two accessor passes disagreed: both must obey C04
+        return oracle(b, a) or oracle(b, c)
     f = rendered.split(":")
     valid = f[1]
     if valid not in ("0", "1"):
@@ -78,6 +81,48 @@ def _readouts(res, items, family):
         res.count(family)
     if items:
         res.sample({"family": family, "hex": items[len(items) // 2].hex()[:160]})
+
+
+ACCESSORS = ("identification_line", "is_valid", "payload", "expected_checksum", "end_line", "data_lines", "as_bytes",
+             "message_type", "__str__", "__len__", "__repr__")
+
+
+def _histories(res, items, rng, family):
+    """is_valid is a function of the readout bytes: whatever accessors were called before (and however often), every
+    observation of is_valid on the same object equals the model's verdict for the bytes, and obeys the oracle."""
+    from han.dlde import DataReadout
+    ans = lib.drive([f"p1.readout {lib.hexs(b)}" for b in items])
+    for b, m in zip(items, ans):
+        if m.startswith("EXC"):
+            continue
+        expect = m.split(":")[1]
+        try:
+            ro = DataReadout(b)
+        except Exception:  # noqa
+            continue
+        ops = [rng.choice(ACCESSORS) for _ in range(rng.randrange(1, 7))] + ["is_valid"]
+        seen = []
+        for op in ops:
+            try:
+                v = getattr(ro, op)
+                if callable(v):
+                    v = v()
+                if op == "is_valid":
+                    seen.append("1" if v else "0")
+            except Exception as ex:  # noqa
+                if op == "is_valid":
+                    seen.append(type(ex).__name__)
+        res.evaluations += 1
+        case = {"op": "p1.readout.history", "hex": b.hex(), "accessors": ops}
+        if any(x != expect for x in seen):
+            res.tie_break(case, seen, expect, family)
+            rendered = ":".join([b.hex(), "1" if "1" in seen else seen[-1], lib.hexs(ro.payload), "-", "0", "x/"])
+            if "1" in seen:
+                why = oracle(b, P.impl_readout(b).replace(":0:", ":1:", 1)) if expect == "0" else None
+                res.prop_failure(case, f"is_valid observed as {seen} along the accessor history {ops}; for these bytes the verdict is {expect}"
+                                 + (f" ({why})" if why else ""), family)
+        res.count(family)
+        res.nontriv((b, tuple(ops)))
 
 
 def _encoded(res, descs, family):
@@ -170,6 +215,9 @@ def run(res, tier, seed, widen=1):
         items.append(ro[:e + 1] + b"0000\r\n")
     for i in range(0, len(items), 5000):
         _readouts(res, items[i:i + 5000], "from_bytes")
+    hist = [it for it in items if rng.random() < 0.5]
+    for i in range(0, len(hist), 5000):
+        _histories(res, hist[i:i + 5000], rng, "accessor_history")
     descs = [P.gen_desc(rng) for _ in range((400 if tier == "quick" else 8000) * widen)]
     for i in range(0, len(descs), 500):
         _encoded(res, descs[i:i + 500], "spec_encoded")
@@ -187,6 +235,24 @@ def search(res, tier, seed):
 
 
 def replay(payload, res):
+    if payload["case"].get("op") == "p1.readout.history":
+        import random
+
+        class Fixed(random.Random):
+            def __init__(self, ops):
+                super().__init__(0)
+                self.ops = list(ops[:-1])
+
+            def randrange(self, *a):
+                return len(self.ops)
+
+            def choice(self, seq):
+                return self.ops.pop(0)
+        _histories(res, [bytes.fromhex(payload["case"]["hex"])], Fixed(payload["case"]["accessors"]), "replay")
+        for f in res.prop_failures:
+            print("REPLAY property failure:", f["what"])
+        print("REPLAY", "fails" if res.prop_failures else "passes")
+        return 1 if res.prop_failures else 0
     _readouts(res, [bytes.fromhex(payload["case"]["hex"])], "replay")
     for f in res.prop_failures:
         print("REPLAY property failure:", f["what"])
